@@ -615,12 +615,16 @@ func Run(tier string) {
 		vk.Infra("Cli.tla: %s\n%s", res.Violated, res.Output)
 	}
 	lines := res.PrintsWithPrefix("CASE ")
-	var cases []ccase
+	var cases, typed []ccase
 	nScryptEnc := 0
 	for i, l := range lines {
 		var c ccase
 		if err := json.Unmarshal([]byte(l), &c); err != nil {
 			vk.Infra("bad CASE: %v", err)
+		}
+		if c.Cmd.Input == "tty" {
+			typed = append(typed, c) // their own executor: the harness is the terminal
+			continue
 		}
 		if c.Cmd.Key == "scrypt" && c.Cmd.Input != "file" {
 			continue // the pty carries the passphrase; input must be a file
@@ -679,6 +683,7 @@ func Run(tier string) {
 	run.Sample(map[string]interface{}{"cmd": cases[len(cases)/2].Cmd, "model": map[string]interface{}{"exit0": cases[len(cases)/2].Exit0, "out": cases[len(cases)/2].Out}})
 	everyOffset(run, ks, ageBin, root)
 	keygen(run, filepath.Join(bin, "age-keygen"), root)
+	typedInput(run, ks, ageBin, root, typed)
 	identityFiles(run, ageBin, root)
 	synopsis(run, ageBin, root)
 	run.Finish()
